@@ -257,8 +257,9 @@ def one_grammar(ctx, shape, recursive, linear, modes):
                     if _outside(rep) or _outside(r2):
                         ctx.count('interpreter-modes.outside-property(non-finite or not converged)')
                         if ('error' in rep) != ('error' in r2):
+                            jpp = ['in:J_precompute_products'] if 'J_precompute_products' in (rep.get('where') or []) + (r2.get('where') or []) else []
                             ctx.fail(f'result under {mode}: one interpreter mode raises, the other does not', dict(case, config=[name, method, jp, dt]), b, a,
-                                     tags=['interpreter-mode', mode, 'error-kind'])
+                                     tags=['interpreter-mode', mode, 'error-kind', name, method, f'j_precompute={jp}'] + jpp)
                         continue
                     if not same_reply(a, b, 1e-4 if dt == 'float32' else 1e-12):
                         jpp = ['in:J_precompute_products'] if 'J_precompute_products' in (rep.get('where') or []) + (r2.get('where') or []) else []
